@@ -485,6 +485,14 @@ pub fn generate(r: &mut Rng, hi: u64, lo: u64) -> FmtCase {
             Some(((1u64 << bits) + r.below(1u64 << bits)).min(1100) as usize)
         }
     };
+    // Bias towards the precision at which a word is an exact decimal tie (a
+    // dyadic rational with f fractional bits ties at precision f - 1): that is
+    // where a wrong rounding mode shows.
+    let prec = match (frac_bits(hi), frac_bits(lo & !SIGN)) {
+        (Some(f), _) if (1..=40).contains(&f) && r.chance(1, 6) => Some((f - 1) as usize),
+        (_, Some(f)) if (1..=40).contains(&f) && r.chance(1, 8) => Some((f - 1) as usize),
+        _ => prec,
+    };
     let mut c = FmtCase { hi, lo, tr, plus, prec, sink: SinkPlan::default(), io: None };
     if r.chance(35, 100) {
         return c; // fault-free configuration
@@ -539,6 +547,24 @@ pub fn generate(r: &mut Rng, hi: u64, lo: u64) -> FmtCase {
         }
     }
     c
+}
+
+/// Number of fractional binary digits of a finite normal f64 (None if it has
+/// none, is not normal, or has more than 60).
+fn frac_bits(bits: u64) -> Option<u32> {
+    let x = f64::from_bits(bits);
+    if !x.is_normal() {
+        return None;
+    }
+    let e = (((bits >> 52) & 0x7ff) as i32) - 1023; // value = 1.m * 2^e
+    let m = (bits & ((1u64 << 52) - 1)) | (1u64 << 52);
+    let tz = m.trailing_zeros() as i32; // significant bits end at 2^(e - 52 + tz)
+    let lowest = e - 52 + tz;
+    if lowest < 0 && lowest >= -60 {
+        Some((-lowest) as u32)
+    } else {
+        None
+    }
 }
 
 /// Simpler variants of a case, for minimisation.
